@@ -6,8 +6,9 @@ import (
 	"fmt"
 	"io"
 	"os"
+	"runtime"
 	"strings"
-	"sync"
+	"sync/atomic"
 	"time"
 
 	"github.com/sirupsen/logrus"
@@ -17,198 +18,71 @@ import (
 	"github.com/pyroscope-io/pyroscope/pkg/storage/tree"
 )
 
-func flatten(n *tree.VerifNode, prefix []string, cb func(stack string, v uint64)) {
-	p := prefix
-	if len(n.Name) > 0 {
-		p = append(append([]string{}, prefix...), string(n.Name))
-	}
-	if n.Self > 0 {
-		cb(strings.Join(p, ";"), n.Self)
-	}
-	for _, c := range n.Children {
-		flatten(c, p, cb)
-	}
-}
-
-// deterministic schedule: a render of a series that does not exist yet is held between its cache miss and
-// its lfu.Set (inside the cache's New callback); meanwhile one ingest into that series runs to completion and
-// is acknowledged; then the render continues.  which = "segments" | "dimensions"
-func demo(which string) {
+func main() {
+	logrus.SetOutput(io.Discard)
+	storage.VerifDisablePeriodicTasks()
 	dir, _ := os.MkdirTemp("", "agentb-x-")
 	defer os.RemoveAll(dir)
 	st, err := storage.New(&config.Server{StoragePath: dir, CacheEvictThreshold: 0.99, CacheEvictVolume: 0.1, MaxNodesSerialization: 2048, MaxNodesRender: 2048})
 	if err != nil {
 		panic(err)
 	}
-	defer st.Close()
-	key, _ := storage.ParseKey("app.cpu{}")
-	get := func() string {
-		out, _ := st.Get(&storage.GetInput{StartTime: time.Unix(1500000000, 0), EndTime: time.Unix(1700000000, 0), Key: key})
-		got := []string{}
-		if out != nil && out.Tree != nil {
-			flatten(out.Tree.VerifDump(), nil, func(s string, v uint64) { got = append(got, fmt.Sprintf("%s=%d", s, v)) })
-		}
-		return fmt.Sprint(got)
-	}
-	put := func(i int) {
+	put := func(name string, i int) {
+		key, _ := storage.ParseKey(name)
 		t := tree.New()
-		t.Insert([]byte(fmt.Sprintf("s%d", i)), 1)
-		from := int64(1600000000 + i*10)
+		t.Insert([]byte("a;b"), 1)
+		from := int64(1600000000 + (i%1000)*10)
 		if err := st.Put(&storage.PutInput{StartTime: time.Unix(from, 0), EndTime: time.Unix(from+10, 0), Key: key, Val: t, SpyName: "gospy", SampleRate: 100, Units: "samples", AggregationType: "sum"}); err != nil {
 			panic(err)
 		}
 	}
-	if which == "segments" {
-		put(0) // the dimension exists, so the render reaches the segment lookup; use a second series for the race
-		key, _ = storage.ParseKey("app.cpu{}")
-	}
-	c := st.VerifCache(which)
-	orig := c.New
-	entered, release := make(chan struct{}), make(chan struct{})
-	first := true
-	c.New = func(k string) interface{} {
-		if first {
-			first = false
-			close(entered)
-			<-release
-		}
-		return orig(k)
-	}
-	if which == "segments" {
-		// drop the segment of the series from the cache view by using a fresh series that shares the dimension
-		key, _ = storage.ParseKey("app.cpu{}")
-	}
-	done := make(chan string)
-	go func() { done <- get() }()
-	select {
-	case <-entered:
-	case r := <-done:
-		fmt.Println(which, ": render finished without a miss:", r)
-		return
-	}
-	go func() { time.Sleep(50 * time.Millisecond); close(release) }()
-	put(1)
-	fmt.Println(which, ": ingest s1 acknowledged (render was held between miss and Set for 50 ms)")
-	fmt.Println(which, ": concurrent render returned", <-done)
-	fmt.Println(which, ": render after everything returned:", get(), " (expected s1=1)")
-}
-
-// segment variant: the writer is held at its own segment creation (after it has listed the series in the
-// dimension), the render then misses the same segment and is held before its Set; the writer finishes and is
-// acknowledged; the render's Set then replaces the written segment by an empty one.
-func demoSeg() {
-	dir, _ := os.MkdirTemp("", "agentb-x-")
-	defer os.RemoveAll(dir)
-	st, err := storage.New(&config.Server{StoragePath: dir, CacheEvictThreshold: 0.99, CacheEvictVolume: 0.1, MaxNodesSerialization: 2048, MaxNodesRender: 2048})
-	if err != nil {
-		panic(err)
-	}
-	defer st.Close()
-	key, _ := storage.ParseKey("app.cpu{}")
-	get := func() string {
-		out, _ := st.Get(&storage.GetInput{StartTime: time.Unix(1500000000, 0), EndTime: time.Unix(1700000000, 0), Key: key})
-		got := []string{}
-		if out != nil && out.Tree != nil {
-			flatten(out.Tree.VerifDump(), nil, func(s string, v uint64) { got = append(got, fmt.Sprintf("%s=%d", s, v)) })
-		}
-		return fmt.Sprint(got)
-	}
-	c := st.VerifCache("segments")
-	orig := c.New
-	var mu sync.Mutex
-	calls := 0
-	entered := []chan struct{}{make(chan struct{}), make(chan struct{})}
-	release := []chan struct{}{make(chan struct{}), make(chan struct{})}
-	c.New = func(k string) interface{} {
-		mu.Lock()
-		i := calls
-		calls++
-		mu.Unlock()
-		if i < 2 {
-			close(entered[i])
-			<-release[i]
-		}
-		return orig(k)
-	}
-	ack := make(chan struct{})
-	go func() {
-		t := tree.New()
-		t.Insert([]byte("s1"), 1)
-		if err := st.Put(&storage.PutInput{StartTime: time.Unix(1600000000, 0), EndTime: time.Unix(1600000010, 0), Key: key, Val: t, SpyName: "gospy", SampleRate: 100, Units: "samples", AggregationType: "sum"}); err != nil {
-			panic(err)
-		}
-		close(ack)
-	}()
-	<-entered[0] // writer: series listed in the dimension, segment being created
-	done := make(chan string)
-	go func() { done <- get() }()
-	select {
-	case <-entered[1]: // render: missed the segment, about to Set its own empty one (only possible without the fix)
-	case <-time.After(50 * time.Millisecond): // with the fix the render waits for the writer's miss to finish
-	}
-	close(release[0])
-	<-ack
-	fmt.Println("segments : ingest s1 acknowledged")
-	close(release[1])
-	fmt.Println("segments : concurrent render returned", <-done)
-	fmt.Println("segments : render after everything returned:", get(), " (expected s1=1)")
-}
-
-func main() {
-	logrus.SetOutput(io.Discard)
-	storage.VerifDisablePeriodicTasks()
-	demo("dimensions")
-	demoSeg()
-	random()
-}
-
-func random() {
-	bad := 0
-	for iter := 0; iter < 300; iter++ {
-		dir, _ := os.MkdirTemp("", "agentb-x-")
-		st, err := storage.New(&config.Server{StoragePath: dir, CacheEvictThreshold: 0.99, CacheEvictVolume: 0.1, MaxNodesSerialization: 2048, MaxNodesRender: 2048})
-		if err != nil {
-			panic(err)
-		}
-		key, _ := storage.ParseKey("directapp.cpu{}")
-		var wg sync.WaitGroup
-		stop := make(chan struct{})
-		wg.Add(1)
+	put("app{foo=bar}", 0)
+	var ops int64
+	for r := 0; r < 8; r++ {
 		go func() {
-			defer wg.Done()
+			key, _ := storage.ParseKey("app{foo=bar}")
 			for {
-				select {
-				case <-stop:
-					return
-				default:
-				}
-				st.Get(&storage.GetInput{StartTime: time.Unix(1500000000, 0), EndTime: time.Unix(1700000000, 0), Key: key})
+				st.Get(&storage.GetInput{StartTime: time.Unix(1600000000, 0), EndTime: time.Unix(1600010000, 0), Key: key})
+				atomic.AddInt64(&ops, 1)
 			}
 		}()
-		n := 5
-		for i := 0; i < n; i++ {
-			t := tree.New()
-			t.Insert([]byte(fmt.Sprintf("s%d", i)), 1)
-			from := int64(1600000000 + (iter*7+i*13)%1000*10)
-			err := st.Put(&storage.PutInput{StartTime: time.Unix(from, 0), EndTime: time.Unix(from+10, 0), Key: key, Val: t, SpyName: "gospy", SampleRate: 100, Units: "samples", AggregationType: "sum"})
-			if err != nil {
-				panic(err)
-			}
-		}
-		close(stop)
-		wg.Wait()
-		out, _ := st.Get(&storage.GetInput{StartTime: time.Unix(1500000000, 0), EndTime: time.Unix(1700000000, 0), Key: key})
-		var tot uint64
-		got := []string{}
-		if out != nil && out.Tree != nil {
-			flatten(out.Tree.VerifDump(), nil, func(s string, v uint64) { tot += v; got = append(got, fmt.Sprintf("%s=%d", s, v)) })
-		}
-		if tot != uint64(n) {
-			bad++
-			fmt.Println("iter", iter, "LOST: got", got)
-		}
-		st.Close()
-		os.RemoveAll(dir)
 	}
-	fmt.Println("random stream: lost in", bad, "of 300 runs")
+	go func() {
+		for i := 0; ; i++ {
+			put(fmt.Sprintf("app{foo=bar,i=%d}", i%20), i)
+			atomic.AddInt64(&ops, 1)
+		}
+	}()
+	go func() {
+		for i := 0; ; i++ {
+			key, _ := storage.ParseKey(fmt.Sprintf("app{foo=bar,i=%d}", (i+10)%20))
+			st.Delete(&storage.DeleteInput{Key: key})
+			atomic.AddInt64(&ops, 1)
+		}
+	}()
+	last := int64(-1)
+	for t := 0; t < 80; t++ {
+		time.Sleep(250 * time.Millisecond)
+		cur := atomic.LoadInt64(&ops)
+		if cur == last {
+			fmt.Println("DEADLOCK at storage level: no progress for 250 ms after", cur, "operations, t =", t)
+			buf := make([]byte, 1<<20)
+			buf = buf[:runtime.Stack(buf, true)]
+			for _, g := range strings.Split(string(buf), "\n\n") {
+				if strings.Contains(g, "sync.(*RWMutex)") {
+					lines := strings.Split(g, "\n")
+					out := []string{lines[0]}
+					for _, l := range lines {
+						if strings.HasPrefix(l, "sync.(*RWMutex)") || strings.HasPrefix(l, "github.com/pyroscope-io/pyroscope/pkg/storage") {
+							out = append(out, "   "+strings.SplitN(l, "(0x", 2)[0])
+						}
+					}
+					fmt.Println(strings.Join(out, "\n"))
+				}
+			}
+			os.Exit(3)
+		}
+		last = cur
+	}
+	fmt.Println("no deadlock in 20 s;", last, "operations")
 }
